@@ -21,6 +21,7 @@ type modLoc struct {
 	Ty     types.Type
 	Ghost  *term.Sort // ghost field component sort (nil for real locations)
 	Text   string
+	Exact  bool // from a `sets` clause: the new value is given exactly
 }
 
 func classMatches(class, prefix string) bool {
@@ -153,7 +154,9 @@ func (e *Env) evalMods0(spec *contract.FuncSpec, withRep bool) []modLoc {
 		if _, ok := e.vars["result"]; !ok && mentions(s.E, "result") {
 			continue // a location inside the (fresh) result
 		}
-		out = append(out, e.evalLoc(s.E, true))
+		l := e.evalLoc(s.E, true)
+		l.Exact = true
+		out = append(out, l)
 	}
 	return out
 }
